@@ -90,7 +90,8 @@ def generate(prop, rng):
     nops = rng.randint(3, 12)
     weights = {
         "C01": [(5, "stage"), (2, "stage_file"), (3, "xfer"), (3, "index_save"), (2, "migrate"), (1, "gc"), (1, "edit")],
-        "C02": [(5, "stage"), (2, "stage_file"), (2, "xfer"), (3, "index_save"), (1, "migrate"), (5, "checkout"), (1, "edit")],
+        "C02": [(5, "stage"), (2, "stage_file"), (2, "xfer"), (3, "index_save"), (1, "migrate"), (5, "checkout"), (1, "edit"),
+                (2, "evict")],  # another client's gc removes an object; staging again through the long-lived handle restores it
         "C06": [(5, "stage"), (1, "stage_file"), (2, "xfer"), (2, "index_save"), (1, "migrate"), (6, "gc"), (2, "evict"), (2, "ext_add")],
     }[prop]
     for n in range(nops):
@@ -152,7 +153,7 @@ def generate(prop, rng):
             op.update(store=s, tree=rng.choice(sorted(staged[s])),
                       link=rng.choice(["copy", "hardlink", "symlink", "reflink"]),
                       with_state=rng.random() < 0.5, via=rng.choice(["obj", "obj", "index"]),
-                      reuse_dest=rng.random() < 0.3)
+                      reuse_dest=rng.random() < 0.3, twice=rng.random() < 0.3)
         elif kind == "edit":
             op.update(tree=ti, content=rng.randrange(len(pool)), name=rng.choice(gen.NAMES))
         elif kind == "ext_add":
@@ -819,7 +820,15 @@ def op_checkout(h, op, n):
         from dvc_data.index.checkout import apply, compare
 
         idx = DataIndex()
-        idx[()] = DataIndexEntry(key=(), meta=Meta(isdir=True), hash_info=_hi(doid))
+        if op.get("twice"):
+            # the same directory object tracked under two names (train/ and val/ with identical listings)
+            for mnt in ("m1", "m2"):
+                idx[(mnt,)] = DataIndexEntry(key=(mnt,), meta=Meta(isdir=True), hash_info=_hi(doid))
+            tb = {f"{mnt}/{rel}": b for mnt in ("m1", "m2") for rel, b in tb.items()}
+            h.w.mkdirs(dest)
+            ctx.probe("same_directory_object_under_two_names")
+        else:
+            idx[()] = DataIndexEntry(key=(), meta=Meta(isdir=True), hash_info=_hi(doid))
         idx.storage_map.add_cache(ObjectStorage((), odb))
         diff = compare(None, idx)
         errs = []
